@@ -24,32 +24,35 @@ void TetrisLegalizer::run() {
 }
 
 std::pair<bool, int> TetrisLegalizer::attemptPlacement(int cell, int y) const {
-  CellOrientation orient = getOrientation(cell, closestRow(y));
-  if (orient == CellOrientation::INVALID) {
-    // Incompatible due to row orientation
-    return std::make_pair(false, 0);
-  }
+  int x = cellTargetX_[cell];
+  int dest = 0;
+  bool found = false;
   // The legalizer is given the dimensions of the cells as placed: they already
   // account for the orientation
   int width = cellWidth_[cell];
   int height = cellHeight_[cell];
-  auto p = getPossibleIntervals(width, height, y);
-  if (p.empty()) {
-    // Incompatible due to obstructions or placed cells
-    return std::make_pair(false, 0);
-  }
-  // Find the closest available interval
-  int x = cellTargetX_[cell];
-  int dest = 0;
-  bool found = false;
-  for (auto [b, e] : p) {
-    int pos = std::clamp(x, b, e);
-    if (!found || std::abs(pos - x) < std::abs(dest - x)) {
-      dest = pos;
-      found = true;
+  // Row segments at the same y may have different orientations: the
+  // orientation is the one of the segment the cell is placed in
+  for (int row = closestRow(y); row < nbRows() && rows_[row].minY == y; ++row) {
+    if (getOrientation(cell, row) == CellOrientation::INVALID) {
+      // Incompatible due to row orientation
+      continue;
+    }
+    // Find the closest available interval
+    for (auto [b, e] : getPossibleIntervals(width, height, y)) {
+      if (b < rows_[row].minX || e + width > rows_[row].maxX) {
+        // Interval of another row segment
+        continue;
+      }
+      int pos = std::clamp(x, b, e);
+      if (!found || std::abs(pos - x) < std::abs(dest - x)) {
+        dest = pos;
+        found = true;
+      }
     }
   }
-  return std::make_pair(true, dest);
+  // Not found: incompatible due to orientation, obstructions or placed cells
+  return std::make_pair(found, dest);
 }
 
 void TetrisLegalizer::placeCell(int cell) {
@@ -100,7 +103,13 @@ void TetrisLegalizer::placeCell(int cell) {
   }
   cellToX_[cell] = bestX;
   cellToY_[cell] = bestY;
-  cellToOrientation_[cell] = getOrientation(cell, closestRow(bestY));
+  // Use the orientation of the row segment the cell is placed in
+  int bestRow = closestRow(bestY);
+  while (bestRow + 1 < nbRows() && rows_[bestRow + 1].minY == bestY &&
+         rows_[bestRow + 1].minX <= bestX) {
+    ++bestRow;
+  }
+  cellToOrientation_[cell] = getOrientation(cell, bestRow);
   cellIsPlaced_[cell] = true;
   instanciateCell(bestX, bestY, cellWidth_[cell], cellHeight_[cell]);
 }
